@@ -9,7 +9,7 @@ use serde_json::{json, Value};
 use stats_ci::proportion;
 use stats_ci::Interval;
 
-pub const LEVELS: [f64; 12] = [0.001, 0.05, 0.3, 0.49, 0.5, 0.51, 0.7, 0.8, 0.9, 0.95, 0.99, 0.9999];
+pub const LEVELS: [f64; 15] = [1e-300, 1e-17, 1e-9, 0.001, 0.05, 0.3, 0.49, 0.5, 0.51, 0.7, 0.8, 0.9, 0.95, 0.99, 0.9999];
 
 #[derive(Clone, Debug, Serialize, Deserialize)]
 pub struct Case {
@@ -47,6 +47,14 @@ pub fn case(c: &Case, obs: &mut Obs) -> PResult {
     let phat = k as f64 / n as f64;
     let mut prev: Option<(f64, f64, f64)> = None; // (level, lo, hi)
     for &l in LEVELS.iter() {
+        // two-sided intervals at levels below 1e-3 are narrower than the spacing of f64 around k/n
+        // (at L < 2^-53 the quantile argument (1+L)/2 is exactly 1/2): the strict clauses cannot be
+        // represented there, so those levels are exercised one-sided only (DESIGN 7.3)
+        // likewise the one-sided Wald formula at such levels puts its bound beyond the far end 0/1 and
+        // the call is rejected with InvalidBounds (see C02: excluded there too); Wilson covers them
+        if (c.kind == 0 || c.wald) && l < 1e-3 {
+            continue;
+        }
         let conf = Conf::new(c.kind, l);
         let Some((lo, hi)) = get(c.wald, n, k, &conf) else {
             return crate::engine::fail(format!("C17/{m}/rejects_admissible"), format!("{m} interval for admissible (n={n}, k={k}, {conf:?}) is not Ok"));
@@ -107,7 +115,7 @@ pub fn case(c: &Case, obs: &mut Obs) -> PResult {
 }
 
 pub fn run(run: &mut Run) {
-    run.technique = "bounded exhaustive enumeration of all admissible (n,k) up to a bound x 12 levels x 3 kinds x {Wilson, Wald}; metamorphic relations between pairs of calls (no reference value)".into();
+    run.technique = "bounded exhaustive enumeration of all admissible (n,k) up to a bound x 15 levels (1e-300 … 0.9999) x 3 kinds x {Wilson, Wald}; metamorphic relations between pairs of calls (no reference value)".into();
     run.rule = "every admissible (n,k), n <= N (quick 600, thorough 4000), for ci/ci_wilson and, on its own domain, ci_z_normal: monotone in k, mirror k <-> n-k with flipped kind, strictly narrower for (m n, m k), m in {2,3,10}, wider with the level, [0,1] and midpoint between k/n and 1/2 (Wilson); plus random large (n,k); every case is non-trivial and distinct by construction".into();
     let nmax: u64 = run.tier.pick(600, 4000);
     run.par((nmax + 1) as usize, |ni, obs| {
@@ -125,7 +133,7 @@ pub fn run(run: &mut Run) {
         }
     });
     run.exhaustive = true;
-    run.exhaustive_parts.push(format!("all admissible (n,k) with n <= {nmax} x 12 levels x 3 kinds x 2 methods"));
+    run.exhaustive_parts.push(format!("all admissible (n,k) with n <= {nmax} x 15 levels (1e-300 … 0.9999) x 3 kinds x 2 methods"));
     let s = (20u64..(1u64 << 36), any::<u64>(), 0u8..3, any::<bool>()).prop_map(|(n, r, kind, wald)| {
         let lo = if wald { 10 } else { 2 };
         let span = n - 2 * lo;
